@@ -357,3 +357,72 @@ Proof.
   destruct Hv as [[Hk Ho]|[[Hk|Hk] ->]]; rewrite Hk; cbn [N.eqb orb]; try rewrite Ho;
     do 3 eexists; (split; [reflexivity|]); repeat split.
 Qed.
+
+(* ------------------------------------------------------------------ /outputs/<address>: classes of outputs *)
+
+Lemma is_nil_spec : forall A (l : list A), is_nil l = true <-> l = [].
+Proof. intros A l. destruct l; cbn; split; congruence. Qed.
+
+(* every output is in at least one of the three classes; cardinal excludes the other two *)
+Lemma classes_cover : forall t h o,
+  orb (in_class t h TCardinal o) (orb (in_class t h TInscribed o) (in_class t h TRunic o)) = true.
+Proof. intros. cbn [in_class]. destruct (holds_inscriptions t o), (holds_runes h o); reflexivity. Qed.
+
+Lemma cardinal_exclusive : forall t h o, in_class t h TCardinal o = true ->
+  in_class t h TInscribed o = false /\ in_class t h TRunic o = false.
+Proof. intros t h o. cbn [in_class]. destruct (holds_inscriptions t o), (holds_runes h o); cbn; intuition congruence. Qed.
+
+(* the classes are exactly the outputs with the respective holdings *)
+Lemma holds_inscriptions_spec : forall t o,
+  holds_inscriptions t o = true <-> exists x, op_of t o = Some x /\ inscriptions_on_output x <> [].
+Proof.
+  intros t o. unfold holds_inscriptions. destruct (op_of t o) as [x|].
+  - rewrite negb_true_iff. split.
+    + intro H. exists x. split; [reflexivity|]. intro E. apply is_nil_spec in E. congruence.
+    + intros (y & Hy & Hn). inversion Hy; subst. destruct (is_nil (inscriptions_on_output y)) eqn:E; [|reflexivity].
+      apply is_nil_spec in E. contradiction.
+  - split; [discriminate|]. intros (y & Hy & _). discriminate.
+Qed.
+
+Lemma holds_runes_spec : forall h o, holds_runes h o = true <-> rune_balances h o <> [].
+Proof.
+  intros h o. unfold holds_runes. rewrite negb_true_iff. split.
+  - intros H E. apply is_nil_spec in E. congruence.
+  - intro H. destruct (is_nil (rune_balances h o)) eqn:E; [|reflexivity]. apply is_nil_spec in E. contradiction.
+Qed.
+
+Lemma class_list_spec : forall t h a ty o,
+  In o (class_list t h a ty) <-> In o (address_ops h a) /\ in_class t h ty o = true.
+Proof. intros. unfold class_list. apply filter_In. Qed.
+
+Lemma class_list_any : forall t h a, class_list t h a TAny = address_ops h a.
+Proof.
+  intros. unfold class_list. induction (address_ops h a) as [|x l IH]; [reflexivity|]. cbn [filter in_class]. f_equal. exact IH.
+Qed.
+
+(* the listing reports, for each listed output, its inscriptions and its rune balances *)
+Lemma output_views_spec : forall t h os vs, output_views t h os = Some vs ->
+  map fst vs = os /\
+  forall o ins v rs, In (o, (ins, (v, rs))) vs -> output_json t o = ROutput ins v /\ rs = runes_view h o.
+Proof.
+  intros t h os. induction os as [|o r IH]; intros vs H; cbn [output_views] in H.
+  - inversion H. split; [reflexivity|]. intros ? ? ? ? [].
+  - destruct (output_json t o) eqn:Eo; try discriminate.
+    destruct (output_views t h r) as [ws|] eqn:Er; [|discriminate].
+    inversion H; subst. destruct (IH ws eq_refl) as [Hm Hv]. split; [cbn; f_equal; exact Hm|].
+    intros o' ins' v' rs' [E|Hin].
+    + inversion E; subst. split; [exact Eo|reflexivity].
+    + apply Hv. exact Hin.
+Qed.
+
+Lemma outputs_address_spec : forall t h a ty vs, h_index h = true ->
+  outputs_address t h a (Some ty) = ROutputs vs ->
+  map fst vs = class_list t h a ty /\
+  forall o ins v rs, In (o, (ins, (v, rs))) vs -> output_json t o = ROutput ins v /\ rs = Some (rune_balances h o).
+Proof.
+  intros t h a ty vs Hi H. unfold outputs_address in H. rewrite Hi in H. cbn [negb] in H.
+  destruct (output_views t h (class_list t h a ty)) as [ws|] eqn:E; [|discriminate].
+  inversion H; subst. destruct (output_views_spec _ _ _ _ E) as [Hm Hv]. split; [exact Hm|].
+  intros o ins v rs Hin. destruct (Hv _ _ _ _ Hin) as [H1 H2]. split; [exact H1|].
+  rewrite H2. unfold runes_view. rewrite Hi. reflexivity.
+Qed.
